@@ -274,7 +274,14 @@ pub fn run(env: &Env, spec: &RunSpec, dir: &Path, keep: bool) -> std::io::Result
         fs::write(d("home/.gitconfig"), gc)?;
     }
     for (name, data) in &spec.files {
-        let p = d("cwd").join(name);
+        // relative to the working directory; "~/x" is below HOME, "xdg:/x" below XDG_CONFIG_HOME
+        let p = if let Some(rest) = name.strip_prefix("~/") {
+            d("home").join(rest)
+        } else if let Some(rest) = name.strip_prefix("xdg:/") {
+            d("xdg/config").join(rest)
+        } else {
+            d("cwd").join(name)
+        };
         if let Some(parent) = p.parent() {
             fs::create_dir_all(parent)?;
         }
